@@ -37,10 +37,18 @@ def run(c):
     inputs += arrays_of(fact) + arrays_of(weights)
     before = [a.tobytes() for a in inputs]
 
-    def mk(agg):
+    def mk(spec):
+        agg, _, pol = spec.partition(":")
+        ign = ignore if not pol else (pol == "ign")
         cls = getattr(mod, prefix + agg)
-        r = float("nan") if (agg == "valid_count" and fmt == "zero" and not ignore) else rma
-        return cls(weights, None, ignore, r) if agg == "count" else cls(fact, weights, ignore, r)
+        r = float("nan") if (agg == "valid_count" and fmt == "zero" and not ign) else rma
+        if agg == "count":
+            return cls(weights, None, ign, r)
+        if agg in ("max", "min"):
+            return cls(fact, ign, r)
+        if agg == "quantile":
+            return cls(fact, 0.5, weights, ign, r)
+        return cls(fact, weights, ign, r)
     try:
         cube = (ccube if side == "ccube" else xcube)(dims, interacting_shape=ish)
         fs = [mk(a) for a in trio]
@@ -48,8 +56,18 @@ def run(c):
         alone = [cube.calculate([mk(a)])[0] for a in trio]
         again = cube.calculate(fs)
         rev = cube.calculate([mk(a) for a in reversed(trio)])[::-1]
+        other_n = []
+        for a in trio:
+            if a.partition(":")[0] == "count" and c["wform"] in ("none", "scalar"):
+                import numpy as _np
+                big = [_np.concatenate([d, d[:1]]) for d in dense]
+                dims_big = [o_aggs.index_of(b, c["commons"][i]) for i, b in enumerate(big)] if side == "ccube" else big
+                fresh = mk(a)
+                (ccube if side == "ccube" else xcube)(dims_big, interacting_shape=ish).calculate([fresh])
+                other_n.append((a, cube.calculate([fresh])[0]))
     except Exception as ex:
         return {"violates": True, "exception": "%s: %s" % (type(ex).__name__, ex)}
     changed = [i for i, (a, b) in enumerate(zip(inputs, before)) if a.tobytes() != b]
     bad = [a for a, t, s, g, r in zip(trio, together, alone, again, rev) if not (same(t, s) and same(g, s) and same(r, s))]
+    bad += [a + " (after another cube)" for a, r in other_n if not same(r, alone[trio.index(a)])]
     return {"violates": bool(changed or bad), "changed_inputs": changed, "unstable": bad}
